@@ -154,6 +154,7 @@ PANIC_CALLEES = [
     (r"^core::option::(unwrap_failed|expect_failed)", "option-unwrap"),
     (r"^core::result::unwrap_failed", "result-unwrap"),
     (r"as core::ops::index::Index(Mut)?<.*>>::index(_mut)?$", "index"),
+    (r"<impl core::ops::index::Index(Mut)?<.*> for .*>::index(_mut)?$", "index"),
     (r"^core::slice::index::", "index"),
     (r"^proc_macro2::Ident::new(_raw)?$", "ident-new"),
     (r"^syn::parse_quote::parse$", "parse-quote"),
